@@ -250,7 +250,9 @@ class InformationWeightTransformer(BaseEstimator, TransformerMixin):
             unsupervised_power = (1.0 - self.supervision_weight) * self.weight_power
             supervised_power = self.supervision_weight * self.weight_power
 
-            self.information_weights_ /= np.mean(self.information_weights_)
+            mean_weight = np.mean(self.information_weights_)
+            if mean_weight > 0:
+                self.information_weights_ /= mean_weight
             self.information_weights_ = np.maximum(self.information_weights_, 0.0)
             self.information_weights_ = np.power(
                 self.information_weights_, unsupervised_power
@@ -266,7 +268,9 @@ class InformationWeightTransformer(BaseEstimator, TransformerMixin):
             self.supervised_weights_ = information_weight(
                 X, self.prior_strength, self.approx_prior, target=target
             )
-            self.supervised_weights_ /= np.mean(self.supervised_weights_)
+            mean_weight = np.mean(self.supervised_weights_)
+            if mean_weight > 0:
+                self.supervised_weights_ /= mean_weight
             self.supervised_weights_ = np.maximum(self.supervised_weights_, 0.0)
             self.supervised_weights_ = np.power(
                 self.supervised_weights_, supervised_power
@@ -276,7 +280,9 @@ class InformationWeightTransformer(BaseEstimator, TransformerMixin):
                 self.information_weights_ * self.supervised_weights_
             )
         else:
-            self.information_weights_ /= np.mean(self.information_weights_)
+            mean_weight = np.mean(self.information_weights_)
+            if mean_weight > 0:
+                self.information_weights_ /= mean_weight
             self.information_weights_ = np.maximum(self.information_weights_, 0.0)
             self.information_weights_ = np.power(
                 self.information_weights_, self.weight_power
